@@ -11,6 +11,8 @@ import LouModel.Forward
 import LouModel.Compile
 import LouModel.Backward
 import LouModel.OneToOne
+import LouModel.Proto
+import LouModel.Engine
 
 namespace Lou.EngineProto
 open Lou
@@ -117,6 +119,29 @@ def handle? (reg : List (String × Table)) (toks : List String) : Option String 
       | .done o =>
         let ms := if o.map.isEmpty then "." else ",".intercalate (o.map.map fun (v : Int) => if v == Pass.unset then "?" else toString v)
         pure s!"P {showWide o.out} {ms} {o.realInlen} rules={",".intercalate (o.applied.map toString)}").getD "BADOP"
+  | ["MCALL", dir, name, mode, outcap, cursor, argmask, inh, tfh, disp] =>
+    -- the whole call from the model alone: same answer format as TRACE (Proto.lean)
+    some <| (do
+      let t ← (reg.find? (fun (e : String × Table) => e.1 == name)).map (fun (e : String × Table) => e.2)
+      let mode ← mode.toNat?
+      let outcap ← outcap.toNat?
+      let argmask ← argmask.toNat?
+      let inb ← parseWide inh
+      let tf ← if tfh == "-" then some [] else parseWide tfh
+      let pairs ← Proto.parsePairs disp
+      let cur : Option Int ← (if cursor == "-" then some none else cursor.toInt?.map some)
+      let a : Drv.Args := {
+        inbuf := inb, outlen := outcap, mode := mode,
+        typeform := if hasBit argmask 1 then some tf else none,
+        spacing := if hasBit argmask 2 then some [] else none,
+        wantOutputPos := hasBit argmask 4, wantInputPos := hasBit argmask 8,
+        cursor := if hasBit argmask 16 then cur else none }
+      let r := if dir == "F" then Engine.callFwd t (Proto.lookupFn pairs 0) a else Engine.callBack t (Proto.lookupFn pairs 0) a
+      match r with
+      | .error why => pure s!"UNSUPPORTED {why}"
+      | .ok (res, h) =>
+        let ins := String.join (h.map fun (x : Drv.PassIn × Drv.PassOut) => s!" | I {x.1.passNo} {showWide x.1.chars} {x.1.maxlen}")
+        pure (Proto.showResult res (dir == "F") ++ ins ++ s!" | N {h.length} EOK=1 NN=1 F=")).getD "BADOP"
   | ["MPASSCHK", name] =>
     some <| match reg.find? (fun (e : String × Table) => e.1 == name) with
       | some e => match Pass.passTableOK e.2 with
